@@ -66,7 +66,26 @@ func errCheckedAndReturned(call *ssa.Call, idx int) (bool, string) {
 			}
 		}
 	}
+	// through the merge of several error values (`if a { err = f() } else { err = g() }; if err != nil`)
+	for i := 0; i < len(vals); i++ {
+		if rr := vals[i].Referrers(); rr != nil {
+			for _, r := range *rr {
+				if phi, ok := r.(*ssa.Phi); ok && types.Identical(phi.Type(), vals[i].Type()) {
+					dup := false
+					for _, x := range vals {
+						dup = dup || x == ssa.Value(phi)
+					}
+					if !dup {
+						vals = append(vals, phi)
+					}
+				}
+			}
+		}
+	}
 	for _, v := range vals {
+		if v.Referrers() == nil {
+			continue
+		}
 		for _, r := range *v.Referrers() {
 			switch r := r.(type) {
 			case *ssa.Return:
